@@ -209,7 +209,13 @@ func verif_C07_abandon() {
 // refused BDAT); the peer is slow, not gone: the rest of the chunk - which looks
 // like a command line - arrives afterwards. The backend never reads EOF, no
 // positive reply is given for the cut chunk and no octet of it is executed.
-func verif_C07_timeout() {
+func verif_C07_timeout() { verifChunkTimeout("C07") }
+
+// verifChunkTimeout: shared by C07 (the cut chunk is never complete) and C08
+// (a read deadline that expires inside a chunk gives the connection up: nothing
+// is executed afterwards, the session is logged out once and nothing runs on it
+// after that).
+func verifChunkTimeout(prop string) {
 	verifPreemptBound(verifBound(1, 2))
 	shape := verifChoice(3) // 0 accepted LAST chunk, 1 accepted non-LAST chunk, 2 refused BDAT (no transaction)
 	mode := verifChoice(3)  // 0 SMTP, 1 LMTP plain session, 2 LMTP per-recipient session
@@ -267,17 +273,31 @@ func verif_C07_timeout() {
 	verifSettle()
 	reps, wf := verifParseReplies(vc.out)
 	verifObserve("c07to", shape, mode, early, at)
-	verifAssert(wf, "C07.timeout-replies-wellformed")
-	verifAssert(be.find("Mail", "bait@v") < 0, "C07.timeout-no-chunk-octet-executed")
+	verifAssert(wf, prop+".timeout-replies-wellformed")
+	verifAssert(be.find("Mail", "bait@v") < 0, prop+".timeout-no-chunk-octet-executed")
 	if shape != 2 {
-		verifAssert(be.count("Data")+be.count("LMTPData") == 1 && rerr != nil && rerr != io.EOF, "C07.timeout-backend-never-reads-eof")
-		verifAssert(verifIsPrefix(got, []byte(chunk)), "C07.timeout-octets-are-a-prefix")
+		verifAssert(be.count("Data")+be.count("LMTPData") == 1 && rerr != nil && rerr != io.EOF, prop+".timeout-backend-never-reads-eof")
+		verifAssert(verifIsPrefix(got, []byte(chunk)), prop+".timeout-octets-are-a-prefix")
 	}
 	if wf && len(reps) > nhead {
-		verifAssert(reps[nhead].code/100 != 2, "C07.timeout-no-positive-reply")
+		verifAssert(reps[nhead].code/100 != 2, prop+".timeout-no-positive-reply")
 	}
-	verifAssert(verifGoroutinesAlive() == 0, "C07.timeout-no-goroutine-left")
-	verifReach("C07.timeout-end")
+	verifAssert(verifGoroutinesAlive() == 0, prop+".timeout-no-goroutine-left")
+	verifReach(prop + ".timeout-end")
+	if prop == "C08" {
+		verifAssert(vc.closed, prop+".timeout-connection-given-up")
+		verifAssert(be.find("Mail", "marker@v") < 0 && be.sessions == 1, prop+".timeout-nothing-executed-afterwards")
+		rule := verifTraceOrder(be.trace)
+		verifAssert(rule == "" || rule == "delivery-begins-after-logout", prop+".timeout-callback-order-per-session")
+		verifAssert(be.count("Logout") == 1, prop+".timeout-logged-out-once")
+		// Listed known finding (known_findings.json): when the read fails in
+		// front of the FIRST octet of a chunk, nothing has forced the delivery
+		// goroutine to start yet, and the command loop gives the connection
+		// up - Logout - before the backend's Data call begins. Kept as the last
+		// assertion so that the tag covers nothing else.
+		verifKnown("KF-C08-delivery-starts-after-logout", true)
+		verifAssert(rule != "delivery-begins-after-logout", prop+".timeout-no-delivery-begins-after-logout")
+	}
 }
 
 // verif_C07_bdat_huge: a BDAT (LAST or not) that announces a size at an integer
